@@ -235,3 +235,56 @@ func gsxC12NilValReturn() {
 	gsxrt.Assert(kind <= 1, "claim: 'always nil' is reported for an operand with a call or a channel receive (the returned evaluation is another one)")
 	gsxrt.Assert(!userNil, "claim: 'always nil' is reported although nil denotes a user declaration here, not the predeclared nil")
 }
+
+// gsxC12CaseOrder: "case T must go before the I case" claims that the T clause can never
+// be reached where it stands. With Go's type-switch semantics (an interface case matches a
+// non-nil value whose dynamic type implements it, `case nil` matches the nil interface
+// value, a concrete case matches exactly that dynamic type) the clause is unreachable iff T
+// is a type (not nil) that implements I. The same long-lived checker visits two type
+// switches that share the interface case; the case types t1, t2 are lazily initialised
+// go/types types (distinct objects whose printed forms are independent symbolic strings;
+// a basic type's kind is symbolic, so the untyped nil of `case nil` is among them), and
+// types.Implements is a memoised nondeterministic fact per (type, interface).
+func gsxC12CaseOrder() {
+	c, ctx := gsxNewChecker("caseOrder")
+	info := ctx.TypesInfo
+	info.Types = map[ast.Expr]types.TypeAndValue{}
+	var ti, t1, t2 types.Type
+	gsxrt.Lazy("ti", 2, &ti)
+	gsxrt.Lazy("t1", 2, &t1)
+	gsxrt.Lazy("t2", 2, &t2)
+	gsxrt.Assume(ti != nil && t1 != nil && t2 != nil)
+	iface, ok := ti.Underlying().(*types.Interface)
+	gsxrt.Assume(ok)
+	pos := token.Pos(10)
+	next := func() token.Pos { pos += 10; return pos }
+	mk := func(t types.Type) (*ast.TypeSwitchStmt, *ast.CaseClause) {
+		xi := &ast.Ident{Name: "I", NamePos: next()}
+		xt := &ast.Ident{Name: "T", NamePos: next()}
+		info.Types[xi] = types.TypeAndValue{Type: ti}
+		info.Types[xt] = types.TypeAndValue{Type: t}
+		second := &ast.CaseClause{Case: next(), List: []ast.Expr{xt}}
+		return &ast.TypeSwitchStmt{Switch: next(), Assign: &ast.ExprStmt{X: &ast.TypeAssertExpr{X: &ast.Ident{Name: "v", NamePos: next()}}},
+			Body: &ast.BlockStmt{List: []ast.Stmt{&ast.CaseClause{Case: next(), List: []ast.Expr{xi}}, second}}}, second
+	}
+	isNil := func(t types.Type) bool {
+		b, ok := t.(*types.Basic)
+		return ok && b.Kind() == types.UntypedNil
+	}
+	v := gsxrt.Field(gsxrt.Field(c, "fileWalker"), "visitor").(interface{ VisitStmt(ast.Stmt) })
+	s1, _ := mk(t1)
+	v.VisitStmt(s1)
+	n1 := len(gsxWarnings(c))
+	want1 := !isNil(t1) && types.Implements(t1, iface)
+	gsxrt.Reached("first switch")
+	if n1 > 0 {
+		gsxrt.Reached("reported")
+	}
+	gsxrt.Assert((n1 > 0) == want1 || n1 == 0, "claim: a type-switch case is reported as unreachable (must go before an interface case) although it can be reached where it stands")
+	s2, _ := mk(t2)
+	v.VisitStmt(s2)
+	n2 := len(gsxWarnings(c)) - n1
+	want2 := !isNil(t2) && types.Implements(t2, iface)
+	gsxrt.Reached("second switch")
+	gsxrt.Assert((n2 > 0) == want2 || n2 == 0, "claim: a type-switch case is reported as unreachable (must go before an interface case) although it can be reached where it stands (second switch of the same checker)")
+}
